@@ -611,7 +611,7 @@ class ErrAnalysis:
                                 if real and all(R.get(x, False) for x in targets):
                                     nm = 1
                                 elif nm == 0:
-                                    nm = 2  # unreported, but the blame lies with the callee (or a throw-away report)
+                                    nm = 2 if real else 3  # unreported: 2 = the callee's fault, 3 = called without the real report
                                 if real and any(E.get(x, False) for x in targets):
                                     ny = ny or ("Err of " + name)
                             else:
@@ -666,7 +666,10 @@ class ErrAnalysis:
                         res["Mok"] = True
                         res["findings"].append(("ERR2", "ok-after-report", node, "returns Ok although an error may have been reported on this path"))
                 elif tag[0] == "err":
-                    if must == 2:
+                    if must == 3:
+                        res["R"] = False
+                        res["findings"].append(("ERR1", "err-propagated-silent-callee", node, "propagates the Err of a callee that was given no report (None / a throw-away Report::new()), so nothing was pushed"))
+                    elif must == 2:
                         res["R"] = False
                         res["findings"].append(("ERR1d", "err-propagated", node, "propagates the Err of a callee that may not have pushed a message"))
                     elif not must:
@@ -1026,10 +1029,43 @@ SWALLOWERS = ("std::result::Result::<T, E>::ok", "std::result::Result::<T, E>::u
               "std::mem::drop", "std::result::Result::<T, E>::is_ok_and")
 
 
+def overwritten_before_inspection(f, var):
+    """`var` is a Result local assigned at several places: can one assignment be overwritten by another
+    (e.g. on the next loop iteration) before the value is looked at?"""
+    def_blocks = set()
+    for d in f.full_defs(var):
+        def_blocks.add(d[1])
+    use_blocks = set()
+    for bi, kind, obj in fn_uses(f, var):
+        use_blocks.add(bi)
+    for db in def_blocks:
+        # the assignment happens at the end of db (call dest) or inside it; start from successors
+        seen = set()
+        work = list(f.succs(db))
+        # a use in the same block after the def: treat statement-defs conservatively as not inspected in-block
+        while work:
+            x = work.pop()
+            if x in seen:
+                continue
+            seen.add(x)
+            if x in def_blocks:
+                return (db, x)
+            if x in use_blocks:
+                continue
+            work.extend(f.succs(x))
+    return None
+
+
 def consumption(f, l, depth=0):
     """how is the Result in local l consumed: (ok?, description)"""
     from rules_det import alias_closure
     aliases, uses = alias_closure(f, l)
+    for a in aliases:
+        if a != 0 and len(f.full_defs(a)) > 1:
+            ow = overwritten_before_inspection(f, a)
+            if ow:
+                return (False, "stored in `%s`, which can be assigned again (line %d) before the previous value was looked at" % (
+                    f.local_name(a) or "a temporary", f.blocks[ow[1]]["term"]["span"]["line"]))
     if 0 in aliases:
         return (True, "returned")
     if not uses:
